@@ -38,12 +38,16 @@ Project(log) == Collapse(SelectSeq([q \in 1..Len(log) |-> StepName(log[q])], LAM
 
 \*  e.case : a configuration of the lattice (BVPipeline)   e.exit, e.changed, e.log : what the real run did
 \*  e.old, e.new : the versions the run went from / to (for the hook environment)
+\* e.objs (optional): name and argv of the tag / push commands; the tag step and the tag-pushing step name the new tag, a git push names the remote
+ObjOK(o, e) == /\ (o.name \in {"tag", "tag_light", "push_tag"} => \E q \in 1..Len(o.argv) : o.argv[q] = e.new)
+               /\ (e.case.vcs = "git" /\ o.name \in {"push", "push_tag"} => \E q \in 1..Len(o.argv) : o.argv[q] = e.remote_name)
 StepsVerdict(e) ==
   LET x == Expected(e.case) got == Project(e.log) IN
   IF x.exit0 # (e.exit = 0) THEN <<"steps:exit-class", x.exit0>>
   ELSE IF got # x.log THEN <<"steps:order-or-gating", x.log>>
   ELSE IF e.changed # x.changed THEN <<"steps:files-changed", x.changed>>
   ELSE IF \E q \in 1..Len(e.log) : e.log[q].kind = "hook" /\ (e.log[q].old # e.old \/ e.log[q].new # e.new) THEN <<"steps:hook-environment", <<e.old, e.new>> >>
+  ELSE IF "objs" \in DOMAIN e /\ \E q \in 1..Len(e.objs) : ~ObjOK(e.objs[q], e) THEN <<"steps:step-does-not-name-its-object", e.new>>
   ELSE Good
 
 \* one VCS invocation of a run (C12):  e.tool, e.name : which command   e.argv : what the VCS received (texts)
